@@ -32,10 +32,24 @@ structure Stepper where
 
 def stateless (f : Line → Verdict) : Stepper := ⟨Unit, (), fun _ l => ((), f l)⟩
 
+/-- C02 also hands tasks to agents behind pivots: lines `p8.<op> …` of a C02 run are the pivot-chain operations of the
+    C08 driver (every hop reads its layer with its own key, the last frame is the task under the target's key); a failure
+    there is a C02 failure: the task did not reach the agent as issued -/
+def c02Step (st : DriverC02.St × DriverC08.St) (l : Line) : (DriverC02.St × DriverC08.St) × Verdict :=
+  if l.op.startsWith "p8." then
+    let (s8, v) := DriverC08.step st.2 { l with op := (l.op.drop 3).toString }
+    let v' := match v with
+      | .specFail _ d => Verdict.specFail "C02.pivot-wrap" d
+      | v => v
+    ((st.1, s8), v')
+  else
+    let (s2, v) := DriverC02.step st.1 l
+    ((s2, st.2), v)
+
 def stepperFor (prop : String) : Option Stepper :=
   match prop with
   | "C01" => some (stateless DriverC01.step)
-  | "C02" => some ⟨DriverC02.St, {}, DriverC02.step⟩
+  | "C02" => some ⟨DriverC02.St × DriverC08.St, ({}, {}), c02Step⟩
   | "C03" => some ⟨DriverC03.SSt, {}, DriverC03.sstep⟩
   | "C04" => some ⟨DriverC04.St, {}, DriverC04.step⟩
   | "C05" => some ⟨DriverC05.St, {}, DriverC05.step⟩
